@@ -268,19 +268,21 @@ inductive Loc
 def locatePools : List Pool → Nat → Nat → Option (Nat × Nat)
   | [], _, _ => none
   | p :: rest, k, pos =>
-    if p.base ≤ pos ∧ pos < p.base + p.win.length then some (k, pos - p.base)
+    if p.base ≤ pos ∧ pos < p.base + p.t then some (k, pos - p.base)
     else locatePools rest (k + 1) pos
 
+/-- Resolution of an index of `array_of_requests` (used by the driver; the machine below works on locations). -/
 def St.locate (s : St) (pos : Nat) : Loc :=
   match locatePools s.pools 0 pos with
   | some (k, j) => .win k j
   | none => if s.dyn.base ≤ pos ∧ pos < s.dyn.last then .dyn (pos - s.dyn.base) else .out
 
-def St.slotAt (s : St) (pos : Nat) : Option Slot :=
-  match s.locate pos with
+def St.slotL (s : St) : Loc → Option Slot
   | .win k j => (s.pools[k]?).bind (fun p => p.win[j]?)
   | .dyn j => s.dyn.slots[j]?
   | .out => none
+
+def St.slotAt (s : St) (pos : Nat) : Option Slot := s.slotL (s.locate pos)
 
 def modPool (ps : List Pool) (k : Nat) (f : Pool → Pool) : List Pool :=
   match ps[k]? with
@@ -291,50 +293,58 @@ def modPool (ps : List Pool) (k : Nat) (f : Pool → Pool) : List Pool :=
 def St.install (s : St) (x : Dyn) : St :=
   { s with dyn := s.dyn.install x, issued := s.issued ++ [x] }
 
-/-- `MPI_Testsome` reported index `pos`. -/
-def St.complete (s : St) (pos : Nat) : St :=
-  match s.locate pos with
+/-- `MPI_Testsome` reported the index at location `l`. -/
+def St.completeL (s : St) : Loc → St
   | .win k j => { s with pools := modPool s.pools k (fun p => p.complete j) }
   | .dyn j => { s with dyn := s.dyn.complete j }
   | .out => s
 
-def St.test (s : St) (c : List Nat) : St := c.foldl St.complete s
-
-/-- Head of the callback loop for index `pos`, up to the call of the user callback. -/
-def St.serve (s : St) (pos : Nat) : St :=
-  match s.slotAt pos with
+/-- Head of the callback loop for one reported index, up to the call of the user callback. -/
+def St.serveL (s : St) (l : Loc) : St :=
+  match s.slotL l with
   | some sl =>
-    match s.locate pos with
+    match l with
     | .dyn j => { s with dyn := s.dyn.serve j, served := s.served ++ [sl.cb] }
     | _ => { s with dyn := if sl.isRecv then { s.dyn with nrecv := s.dyn.nrecv - 1 } else s.dyn,
                     served := s.served ++ [sl.cb] }
   | none => s
 
 /-- After the user callback returned. -/
-def St.done (s : St) (pos : Nat) : St :=
-  match s.locate pos with
+def St.doneL (s : St) : Loc → St
   | .win k j =>
     match s.pools[k]? with
-    | some p =>
-      let r := p.done j
-      { s with pools := s.pools.set k r.1, bad := s.bad || !r.2 }
+    | some p => { s with pools := s.pools.set k (p.done j).1, bad := s.bad || !(p.done j).2 }
     | none => s
   | _ => s
 
-/-- `mpi_funnelled_refill_am_requests`, the removal loop and the feed loop. -/
-def St.finish (s : St) (c : List Nat) : St :=
+def dynOffs : List Loc → List Nat
+  | [] => []
+  | .dyn j :: rest => j :: dynOffs rest
+  | _ :: rest => dynOffs rest
+
+/-- `mpi_funnelled_refill_am_requests`, the removal loop (over the reported indices, last to first; the ones
+    below `mpi_funnelled_static_req_idx` are skipped) and the feed loop. -/
+def St.finishL (s : St) (ls : List Loc) : St :=
   { s with pools := s.pools.map Pool.refill,
-           dyn := ((s.dyn.removeAll ((c.filter (fun pos => decide (s.dyn.base ≤ pos))).reverse.map (fun pos => pos - s.dyn.base))).feed s.dyn.cap) }
+           dyn := (s.dyn.removeAll (dynOffs ls).reverse).feed s.dyn.cap }
 
-/-- One completed index together with the requests its callback created. -/
-def St.serveOne (s : St) (e : Nat × List Dyn) : St :=
-  (e.2.foldl St.install (s.serve e.1)).done e.1
+/-- One reported index together with the requests its callback created. -/
+def St.serveOneL (s : St) (e : Loc × List Dyn) : St :=
+  (e.2.foldl St.install (s.serveL e.1)).doneL e.1
 
-/-- One pass of the `do … while` loop of `mpi_no_thread_progress`: `c` lists the indices reported
-    by `MPI_Testsome` (in the order of `array_of_indices`) with, for each, the dynamic requests
-    created by its callback. -/
-def St.iter (s : St) (c : List (Nat × List Dyn)) : St :=
-  ((c.foldl St.serveOne (s.test (c.map (·.1)))).finish (c.map (·.1)))
+/-- One pass of the `do … while` loop of `mpi_no_thread_progress`: `c` lists the locations of the indices
+    reported by `MPI_Testsome` (in the order of `array_of_indices`) with, for each, the dynamic requests created by
+    its callback. -/
+def St.iterL (s : St) (c : List (Loc × List Dyn)) : St :=
+  (c.foldl St.serveOneL ((c.map (·.1)).foldl St.completeL s)).finishL (c.map (·.1))
+
+/-! The same operations addressed by absolute index (what the driver replays). -/
+def St.complete (s : St) (pos : Nat) : St := s.completeL (s.locate pos)
+def St.test (s : St) (c : List Nat) : St := c.foldl St.complete s
+def St.serve (s : St) (pos : Nat) : St := s.serveL (s.locate pos)
+def St.done (s : St) (pos : Nat) : St := s.doneL (s.locate pos)
+/-- The driver resolves the reported indices when `MPI_Testsome` returns (`locs`), before anything moves. -/
+def St.finish (s : St) (locs : List Loc) : St := s.finishL locs
 
 /-! ## Canonical printing (the harness prints the same from the real arrays) -/
 
